@@ -150,7 +150,7 @@ def build(case, g, N, M=None):
         return gens.make_tt(N, R, dt, 'gauss', g, M=M, scales=scales)
     if vals in ('tiny', 'huge'):
         # overall norm far from 1: a truncation threshold that is not relative to the norm shows here
-        e = rr.uniform(1.5, 4.0) / max(d, 1) * (-1 if vals == 'tiny' else 1)
+        e = rr.uniform(4.0, 9.0) / max(d, 1) * (-1 if vals == 'tiny' else 1)
         if dt == torch.float32:
             e = e / 2
         return gens.make_tt(N, R, dt, 'gauss', g, M=M, scales=[10.0 ** e] * d)
